@@ -303,3 +303,21 @@ func (w *World) pureHelper(fn *ssa.Function) bool {
 	}
 	return true
 }
+
+
+// namedPtr resolves "pkg/ast.Name" to the type *<module>/pkg/ast.Name (nil if there is no such type).
+func (w *World) namedPtr(name string) types.Type {
+	i := strings.LastIndex(name, ".")
+	if i < 0 {
+		return nil
+	}
+	p := w.PkgByPath[modPath+"/"+name[:i]]
+	if p == nil {
+		return nil
+	}
+	o := p.Types.Scope().Lookup(name[i+1:])
+	if o == nil {
+		return nil
+	}
+	return types.NewPointer(o.Type())
+}
